@@ -2,6 +2,7 @@
 import re
 
 from .. import lib, mir
+from .. import lib_sw as S
 from ..mir import render
 
 EXPLANATION = ("Connection::poll: on the Some edge of ProtocolsChange::add the handler is notified exactly once and "
@@ -9,7 +10,10 @@ EXPLANATION = ("Connection::poll: on the Some edge of ProtocolsChange::add the h
                "None edges notify nothing; every element of from_full_sets' result is delivered as LocalProtocolsChange. "
                "ProtocolsChange::add emits exactly `to_add` filtered by !existing.contains; remove emits exactly what existing.take() "
                "returned (and thereby removes it); from_full_sets marks all entries unvisited, marks/inserts each advertised name, records "
-               "new names before and dropped names after the split index, and retains exactly the visited entries.")
+               "new names before and dropped names after the split index, and retains exactly the visited entries; its no-change "
+               "shortcut (empty result) is taken only when BOTH the advertised count equals the map size AND nothing new was recorded; "
+               "Connection::poll iterates the computed local changes until the iterator is exhausted.  Parameters, closures and "
+               "private fields are identified by type / role, not by name.")
 ASSUMPTIONS = ["duplicate advertised names defeat from_full_sets' no-change shortcut (new_protocol_count == existing.len()); no structural rule "
                "separates that from a correct shortcut, so the duplicate-name clause is NOT decided (DESIGN O1)",
                "HashSet/HashMap semantics"]
@@ -18,8 +22,13 @@ PC = r"handler::ProtocolsChange::"
 
 
 def check(ctx):
-    p = ctx.body(SW, r"^libp2p_swarm::connection::Connection::poll$")
+    prog = ctx.prog
+    p = S.nbody(ctx, r"^libp2p_swarm::connection::Connection::poll$")
     CE = r"handler::ConnectionEvent$"
+    CONN = r"^libp2p_swarm::connection::Connection$"
+    F_REMOTE = S.field_by_type(prog, CONN, r"^std::collections::HashSet<stream_protocol::StreamProtocol>$")
+    F_BUF = S.field_by_type(prog, CONN, r"^std::vec::Vec<stream_protocol::StreamProtocol>$")
+    F_LOCAL = S.field_by_type(prog, CONN, r"^std::collections::HashMap<connection::AsStrHashEq<.*, bool>$")
 
     def notif(variant):
         return lib.calls_with_variant(p, r"ConnectionHandler::on_connection_event$", CE, variant)
@@ -29,7 +38,7 @@ def check(ctx):
     ctx.floor("deliver", "LocalProtocolsChange notifications", lpc, 1)
     hp = p.call_sites(r"ConnectionHandler::poll$")
     loop_or_ret = lib.bbs(hp) + p.return_blocks()
-    ext = [s for s in p.call_sites(r"Extend>::extend$") if "remote_supported_protocols" in render(p.site_expr(s)[2][0])]
+    ext = [s for s in p.call_sites(r"Extend>::extend$") if S.has_field(p.site_expr(s)[2][0], F_REMOTE)]
     ctx.floor("deliver", "remote_supported_protocols.extend", ext, 1)
     for fn in ("add", "remove"):
         cs = p.call_sites(PC + fn + "$")
@@ -44,7 +53,7 @@ def check(ctx):
             ctx.ob("deliver", "%s: no change => no notification" % fn, got == (0, 0), s.loc(), "notifications on the None edge: %s" % (got,))
             e = render(p.site_expr(s))
             ctx.ob("deliver", "%s operates on remote_supported_protocols + reported set" % fn,
-                   ".remote_supported_protocols, " in e and re.search(r"@ReportRemoteProtocols\.0@(Added|Removed)\.0, ", e) is not None and
+                   ".%s, " % F_REMOTE in e and re.search(r"@ReportRemoteProtocols\.0@(Added|Removed)\.0, ", e) is not None and
                    ("@Added.0" in e) == (fn == "add"), s.loc(), e[:220])
             if fn == "add":
                 got = lib.count_range(p, some, loop_or_ret, lib.bbs(ext))
@@ -53,7 +62,7 @@ def check(ctx):
                 ctx.ob("deliver", "add: nothing stored when nothing was emitted", got == (0, 0), s.loc(), "extend on the None edge: %s" % (got,))
                 for x in ext:
                     r = render(p.site_expr(x)[2][1])
-                    ctx.ob("deliver", "stored names = drained emission buffer", r.startswith("std::vec::Vec::drain(") and ".protocol_buffer, " in r, x.loc(), r[:120])
+                    ctx.ob("deliver", "stored names = drained emission buffer", r.startswith("std::vec::Vec::drain(") and ".%s, " % F_BUF in r, x.loc(), r[:120])
                     # notification happens before the buffer is drained
                     lib.precedes(ctx, "deliver", "notify before drain", p, [n.bb for n in rpc if n.bb in p.reachable(some)], [x.bb],
                                  "handler sees the emitted names before the buffer is drained", x.loc())
@@ -66,18 +75,47 @@ def check(ctx):
     ctx.floor("deliver", "from_full_sets call", ff, 1)
     for s in ff:
         e = render(p.site_expr(s))
-        ctx.ob("deliver", "diff is computed against the current listen protocol", ".local_supported_protocols, " in e and "ConnectionHandler::listen_protocol(" in e and "UpgradeInfoSend::protocol_info(" in e, s.loc(), e[:260])
+        ctx.ob("deliver", "diff is computed against the current listen protocol", ".%s, " % F_LOCAL in e and "ConnectionHandler::listen_protocol(" in e and "UpgradeInfoSend::protocol_info(" in e, s.loc(), e[:260])
     nx = [s for s in p.call_sites(r"smallvec::IntoIter as std::iter::Iterator>::next$")]
-    ctx.floor("deliver", "changes iteration", nx, 1)
+    # the same delivery written as an iterator chain: changes.into_iter().for_each(|c| handler.on_connection_event(LocalProtocolsChange(c)))
+    fe = [s for s in p.call_sites(r"^std::iter::Iterator::for_each$") if any(S.call_at(p.site_expr(s)[2][0], f_.bb) is not None for f_ in ff)]
+    ctx.floor("deliver", "changes iteration", nx + fe, 1)
     for s in nx:
         some = [t for _, t in lib.switch_edges_on_site(p, s, {"Some"})]
         got = lib.count_range(p, some, [s.bb], lib.bbs(lpc))
         ctx.ob("deliver", "every local change element is delivered once", got == (1, 1), s.loc(), "LocalProtocolsChange per element: %s" % (got,))
+    for s in fe:
+        cl = S.closure_at(prog, p, s)
+        ctx.use(cl)
+        inner = lib.calls_with_variant(cl, r"ConnectionHandler::on_connection_event$", CE, "LocalProtocolsChange")
+        got = lib.count_range(cl, [0], cl.return_blocks(), lib.bbs(inner))
+        ok = got == (1, 1) and all("LocalProtocolsChange{0: p%d}" % cl.argc in render(cl.site_expr(x)) for x in inner)
+        ctx.ob("deliver", "every local change element is delivered once", ok, s.loc(), "LocalProtocolsChange per element (for_each closure): %s" % (got,))
+    # the computed local changes are iterated until exhausted: every path from the computation back to the handler poll / a return
+    # passes the `None` edge of the iterator (or the explicit "no changes" edge)
+    for f_ in ff:
+        mine = [s for s in nx if any(S.call_at(x, f_.bb) is not None for x in [p.site_expr(s)] + [d for l in S.locals_in(p.site_expr(s)) for _, d in S.defs_exprs(p, l)])]
+        mine_fe = [s for s in fe if S.call_at(p.site_expr(s)[2][0], f_.bb) is not None]
+        ctx.floor("deliver", "iteration over the computed changes", mine + mine_fe, 1)
+        if mine_fe and not mine:
+            ends_ = [b for b in loop_or_ret if b in p.reachable(p.succ[f_.bb])]
+            empt = S.edges_of(p, lambda c, r: c[0] == "call" and re.search(r"SmallVec::is_empty$", mir.strip_generics(c[1])) is not None and S.call_at(c, f_.bb) is not None, {"true"})
+            okf = bool(ends_) and not (set(ends_) & p.reachable(p.succ[f_.bb], blocked_nodes=lib.bbs(mine_fe), blocked_edges=empt))
+            ctx.ob("deliver", "all computed local changes are delivered (iteration runs to exhaustion)", okf, f_.loc(), "for_each over the computed changes on every path")
+            continue
+        done = set()
+        for s in mine:
+            done |= lib.switch_edges_on_site(p, s, {"None"})
+        done |= S.edges_of(p, lambda c, r: c[0] == "call" and re.search(r"SmallVec::is_empty$", mir.strip_generics(c[1])) is not None and S.call_at(c, f_.bb) is not None, {"true"})
+        ends = [b for b in loop_or_ret if b in p.reachable(p.succ[f_.bb])]
+        bad = [b for b in ends if not p.must_pass_edges(b, done, start=f_.bb)]
+        ctx.ob("deliver", "all computed local changes are delivered (iteration runs to exhaustion)", bool(done) and bool(ends) and not bad, f_.loc(),
+               "a path leaves the delivery of the computed changes before the iterator returned None" if bad else "every path passes the iterator's None edge")
     for s in lpc:
         r = render(p.site_expr(s))
         ctx.ob("deliver", "delivered element is the iterated change", "LocalProtocolsChange{0: <smallvec::IntoIter as std::iter::Iterator>::next(" in r and "@Some.0}" in r, s.loc(), r[-160:])
     # initial set in Connection::new
-    n = ctx.body(SW, r"^libp2p_swarm::connection::Connection::new$")
+    n = S.nbody(ctx, r"^libp2p_swarm::connection::Connection::new$")
     ini = n.call_sites(PC + r"from_initial_protocols$")
     nl = lib.calls_with_variant(n, r"ConnectionHandler::on_connection_event$", CE, "LocalProtocolsChange")
     ctx.floor("initial", "from_initial_protocols", ini, 1)
@@ -86,57 +124,91 @@ def check(ctx):
         ctx.guarded("initial", "initial set delivered when non-empty", s, lambda c, r, l: l == "false" and "is_empty(" in r, "!initial_protocols.is_empty()")
     # ---- add / remove / from_full_sets internals
     for fn, kind in (("add", "Added"), ("remove", "Removed")):
-        b = ctx.body(SW, PC + fn + "$")
+        b = S.nbody(ctx, PC + fn + "$")
+        i_ex = S.param_of_type(b, r"^&(mut )?std::collections::HashSet<stream_protocol::StreamProtocol>$")
+        i_in = S.param_of_type(b, r"^std::collections::HashSet<stream_protocol::StreamProtocol>$")
+        i_buf = S.param_of_type(b, r"^&('\w+ )?mut std::vec::Vec<stream_protocol::StreamProtocol>$")
         clr = b.call_sites(r"Vec::clear$")
         ex = b.call_sites(r"Extend>::extend$")
         lib.precedes(ctx, "compute", "%s: buffer cleared before use" % fn, b, lib.bbs(clr), lib.bbs(ex), "buffer.clear() precedes buffer.extend(..)")
-        want = {"add": r"^<std::vec::Vec as std::iter::Extend>::extend\(buffer, std::iter::Iterator::filter\(<std::collections::HashSet as std::iter::IntoIterator>::into_iter\(to_add\), closure:.*\[existing_protocols\]\)\)$",
-                "remove": r"^<std::vec::Vec as std::iter::Extend>::extend\(buffer, std::iter::Iterator::filter_map\(<std::collections::HashSet as std::iter::IntoIterator>::into_iter\(to_remove\), closure:.*\[existing_protocols\]\)\)$"}[fn]
+        want = {"add": r"^<std::vec::Vec as std::iter::Extend>::extend\(p%d, std::iter::Iterator::filter\(<std::collections::HashSet as std::iter::IntoIterator>::into_iter\(p%d\), closure:.*\[p%d\]\)\)$" % (i_buf, i_in, i_ex),
+                "remove": r"^<std::vec::Vec as std::iter::Extend>::extend\(p%d, std::iter::Iterator::filter_map\(<std::collections::HashSet as std::iter::IntoIterator>::into_iter\(p%d\), closure:.*\[p%d\]\)\)$" % (i_buf, i_in, i_ex)}[fn]
         ctx.ob("compute", "%s: emission = filtered input set" % fn, len(ex) == 1 and re.search(want, render(b.site_expr(ex[0]))) is not None, ex[0].loc() if ex else "",
                render(b.site_expr(ex[0]))[:200] if ex else "")
-        cl = ctx.body(SW, PC + fn + r"::\{closure#0\}$")
-        r0 = [render(cl.site_expr(mir.Site(cl, x[1], x[2]))) for x in cl.defs[0]]
-        wantc = {"add": ["Not(std::collections::HashSet::contains(^*existing_protocols, i))"], "remove": ["std::collections::HashSet::take(^*existing_protocols, i)"]}[fn]
-        ctx.ob("compute", "%s: element predicate" % fn, r0 == wantc, "%s:%d" % (cl.file, cl.line), "closure returns %s" % r0)
+        if not ex:
+            continue
+        cl = S.closure_at(prog, b, ex[0])
+        ctx.use(cl)
+        r0 = [render(x) for x in S.ret_exprs(cl)]
+        wantc = {"add": [r"^Not\(std::collections::HashSet::contains\(\^\*?u0, p2\)\)$"], "remove": [r"^std::collections::HashSet::take\(\^\*?u0, p2\)$"]}[fn]
+        ctx.ob("compute", "%s: element predicate" % fn, len(r0) == 1 and re.match(wantc[0], r0[0]) is not None, "%s:%d" % (cl.file, cl.line), "closure returns %s" % r0)
         res = [mir.Site(b, x[1], x[2]) for x in b.defs[0]]
         lib.check_cells(ctx, "compute", fn + " result", b, res,
                         lambda s, b=b, kind=kind: "None" if render(b.site_expr(s)) == "std::option::Option::None{}" else
-                        ("Some(%s(buffer))" % kind if re.match(r"^std::option::Option::Some\{0: libp2p_swarm::handler::ProtocolsChange::%s\{0: libp2p_swarm::handler::Protocols%s::Protocols%s\{protocols: core::slice::iter\(<std::vec::Vec as std::ops::Deref>::deref\(buffer\)\)\}\}\}$" % (kind, kind, kind), render(b.site_expr(s))) else "?"),
-                        [(r"^std::vec::Vec::is_empty\(buffer\)$", "empty")], {"empty": ["true", "false"]},
+                        ("Some(%s(buffer))" % kind if re.match(r"^std::option::Option::Some\{0: libp2p_swarm::handler::ProtocolsChange::%s\{0: libp2p_swarm::handler::Protocols%s::Protocols%s\{\w+: core::slice::iter\(<std::vec::Vec as std::ops::Deref>::deref\(p%d\)\)\}\}\}$" % (kind, kind, kind, i_buf), render(b.site_expr(s))) else "?"),
+                        [(r"^std::vec::Vec::is_empty\(p%d\)$" % i_buf, "empty")], {"empty": ["true", "false"]},
                         lambda a, kind=kind: "None" if a["empty"] == "true" else "Some(%s(buffer))" % kind, "%s:%d" % (b.file, b.line))
-    f = ctx.body(SW, PC + r"from_full_sets$")
-    c0 = ctx.body(SW, PC + r"from_full_sets::\{closure#0\}$")
-    c1 = ctx.body(SW, PC + r"from_full_sets::\{closure#1\}$")
-    c2 = ctx.body(SW, PC + r"from_full_sets::\{closure#2\}$")
+    f = S.nbody(ctx, PC + r"from_full_sets$")
+    i_map = S.param_of_type(f, r"^&mut std::collections::HashMap<connection::AsStrHashEq<T>, bool>$")
+    i_buf = S.param_of_type(f, r"^&('\w+ )?mut std::vec::Vec<stream_protocol::StreamProtocol>$")
+    am_s = f.call_sites(r"hash_map::Entry::and_modify$")
+    oi_s = f.call_sites(r"hash_map::Entry::or_insert_with_key$|hash_map::Entry::or_insert_with$")
+    ret = f.call_sites(r"HashMap::retain$")
+    ctx.floor("compute", "from_full_sets closures (and_modify / or_insert_with_key / retain)", am_s + oi_s + ret, 3)
+    if not (am_s and oi_s and ret):
+        return
+    c0 = S.closure_at(prog, f, am_s[0])
+    c1 = S.closure_at(prog, f, f.site_expr(oi_s[0])[2][1])
+    c2 = S.closure_at(prog, f, ret[0])
+    for c in (c0, c1, c2):
+        ctx.use(c)
     w = c0.stmt_sites(lambda st: st["k"] == "assign" and st["p"].get("pr") and st["p"]["l"] == 2)
     ctx.ob("compute", "from_full_sets: still-advertised names are marked visited", len(w) == 1 and render(c0.site_expr(w[0])) == "1", "%s:%d" % (c0.file, c0.line), "and_modify(|v| *v = true)")
-    r1 = [render(c1.site_expr(mir.Site(c1, x[1], x[2]))) for x in c1.defs[0]]
+    r1 = [render(x) for x in S.ret_exprs(c1)]
     e1 = c1.call_sites(r"Extend>::extend$")
-    ctx.ob("compute", "from_full_sets: new names are recorded and kept", r1 == ["1"] and len(e1) == 1 and "^*buffer" in render(c1.site_expr(e1[0])) and "as_ref(k.0)" in render(c1.site_expr(e1[0])),
-           "%s:%d" % (c1.file, c1.line), "or_insert_with_key(|k| { buffer.extend(k); true })")
-    r2 = [render(c2.site_expr(mir.Site(c2, x[1], x[2]))) for x in c2.defs[0]]
+    _, caps1 = S.closure_captures(f, f.site_expr(oi_s[0])[2][1])
+    ok = r1 == ["1"] and len(e1) == 1 and len(caps1) == 1 and render(caps1[0]) == "p%d" % i_buf
+    if ok:
+        ee = c1.site_expr(e1[0])
+        ok = re.match(r"^\^\*?u0$", render(ee[2][0])) is not None and "as_ref(p2.0)" in render(ee[2][1])
+    ctx.ob("compute", "from_full_sets: new names are recorded and kept", ok, "%s:%d" % (c1.file, c1.line), "or_insert_with_key(|k| { buffer.extend(k); true })")
+    r2 = S.ret_exprs(c2)
     e2 = c2.call_sites(r"Extend>::extend$")
-    ok = r2 == ["arg3"] and len(e2) == 1
-    ctx.ob("compute", "from_full_sets: retain keeps exactly the visited entries", ok, "%s:%d" % (c2.file, c2.line), "retain closure returns is_supported: %s" % r2)
+    _, caps2 = S.closure_captures(f, f.site_expr(ret[0]))
+    flag = c2.argc         # retain's closure is |key, value|: the value (visited flag) is its last parameter
+    ok = len(r2) == 1 and r2[0][0] == "arg" and r2[0][1] == flag and len(e2) == 1 and len(caps2) == 1 and render(caps2[0]) == "p%d" % i_buf
+    ctx.ob("compute", "from_full_sets: retain keeps exactly the visited entries", ok, "%s:%d" % (c2.file, c2.line), "retain closure returns is_supported: %s" % [render(x) for x in r2])
     if e2:
-        ctx.guarded("compute", "from_full_sets: dropped names recorded only for unvisited entries", e2[0], lambda c, r, l: r == "arg3" and l == "false", "!is_supported")
+        ctx.guarded("compute", "from_full_sets: dropped names recorded only for unvisited entries", e2[0],
+                    lambda c, r, l: S.unnot(c, l)[0][0] == "arg" and S.unnot(c, l)[0][1] == flag and S.unnot(c, l)[1] == "false", "!is_supported")
+        ee = c2.site_expr(e2[0])
+        ctx.ob("compute", "from_full_sets: dropped names go to the emission buffer", re.match(r"^\^\*?u0$", render(ee[2][0])) is not None and "as_ref(p2.0)" in render(ee[2][1]), e2[0].loc(), render(ee)[:160])
+    # both closures feed the map / the retain runs on the map
+    ctx.ob("compute", "from_full_sets: marking and retain operate on the existing-protocols map",
+           render(f.site_expr(ret[0])[2][0]) == "p%d" % i_map and all(render(c[2][0]) == "p%d" % i_map for c in mir.calls_in(f.site_expr(oi_s[0]), r"HashMap::entry$")),
+           ret[0].loc(), "entry()/retain() on parameter %d" % i_map)
     # unvisited reset loop precedes marking; split index taken between marking and retain
     vm = f.call_sites(r"HashMap::values_mut$")
     ent = f.call_sites(r"HashMap::entry$")
-    ret = f.call_sites(r"HashMap::retain$")
-    ln = [s for s in f.call_sites(r"Vec::len$") if render(f.site_expr(s)) == "std::vec::Vec::len(buffer)"]
+    ln = [s for s in f.call_sites(r"Vec::len$") if render(f.site_expr(s)) == "std::vec::Vec::len(p%d)" % i_buf]
     sp = f.call_sites(r"slice::split_at$|split_at$")
     ctx.floor("compute", "from_full_sets anchors", vm + ent + ret + ln + sp, 5)
     lib.precedes(ctx, "compute", "from_full_sets: reset before marking", f, lib.bbs(vm), lib.bbs(ent), "all entries set to unvisited first")
-    lib.precedes(ctx, "compute", "from_full_sets: split index before retain", f, lib.bbs(ln), lib.bbs(ret), "num_new_protocols = buffer.len() read before dropped names are appended")
-    after = set()
-    for x in ln:
-        after |= f.reachable(f.succ[x.bb])
-    ctx.ob("compute", "from_full_sets: marking before split index", bool(ln) and not (set(lib.bbs(ent)) & after), ln[0].loc() if ln else "",
-           "no new name is recorded after the split index was read")
+    # the split index is a buffer length read before the dropped names are appended
+    idx_calls = []
     for s in sp:
-        r = render(f.site_expr(s))
-        ctx.ob("compute", "from_full_sets: split at the number of new names", r.endswith(", std::vec::Vec::len(buffer))") or r.endswith(", num_new_protocols)"), s.loc(), r[-80:])
+        a = f.site_expr(s)[2][1]
+        cs = [x for x in ln if S.call_at(a, x.bb) is not None]
+        ctx.ob("compute", "from_full_sets: split at the number of new names", len(cs) == 1 and a[0] == "call" and a[3] == cs[0].bb, s.loc(), render(f.site_expr(s))[-80:])
+        idx_calls += cs
+    lib.precedes(ctx, "compute", "from_full_sets: split index before retain", f, lib.bbs(idx_calls), lib.bbs(ret), "num_new_protocols = buffer.len() read before dropped names are appended")
+    ctx.ob("compute", "from_full_sets: the split index is read once, not re-read after retain", bool(idx_calls) and not any(x.bb in f.reachable(f.succ[r_.bb]) for x in idx_calls for r_ in ret),
+           idx_calls[0].loc() if idx_calls else "", "buffer.len() used for the split is not evaluated after retain")
+    after = set()
+    for x in idx_calls:
+        after |= f.reachable(f.succ[x.bb])
+    ctx.ob("compute", "from_full_sets: marking before split index", bool(idx_calls) and not (set(lib.bbs(ent)) & after), idx_calls[0].loc() if idx_calls else "",
+           "no new name is recorded after the split index was read")
     pushes = f.call_sites(r"SmallVec::push$")
     kinds = sorted(v for s in pushes for v in lib.agg_variants(f.site_expr(s), r"handler::ProtocolsChange$"))
     ctx.ob("compute", "from_full_sets: emits Added then Removed", kinds == ["Added", "Removed"], msg=str(kinds))
@@ -145,3 +217,30 @@ def check(ctx):
         v = lib.agg_variants(f.site_expr(s), r"handler::ProtocolsChange$")[0]
         half = ".0)" if v == "Added" else ".1)"
         ctx.ob("compute", "from_full_sets: %s built from its half of the buffer" % v, ("split_at(" in r and ("core::slice::iter(" in r) and (half + "}}" in r or half in r)), s.loc(), r[-140:])
+    # ---- the no-change shortcut: an empty result without running the removal pass requires BOTH "as many advertised names as
+    # entries" AND "no new name recorded"
+    empties = [s for s in S.ret_sites(f) if S.is_call(f.site_expr(s), r"smallvec::SmallVec::new$")]
+    ctx.floor("compute", "from_full_sets no-change shortcut", empties, 1)
+
+    def count_eq(c, r, l):
+        c, l = S.unnot(c, l)
+        if c[0] != "bin" or c[1] not in ("Eq", "Ne"):
+            return False
+        sides = [c[2], c[3]]
+        has_len = any(S.is_call(x, r"HashMap::len$") and render(x[2][0]) == "p%d" % i_map for x in sides)
+        has_cnt = any(x[0] == "local" for x in sides)
+        return has_len and has_cnt and l == ("true" if c[1] == "Eq" else "false")
+
+    def none_new(c, r, l):
+        c, l = S.unnot(c, l)
+        if S.is_call(c, r"Vec::is_empty$") and render(c[2][0]) == "p%d" % i_buf:
+            return l == "true"
+        if c[0] == "bin" and c[1] in ("Eq", "Ne") and any(S.is_call(x, r"Vec::len$") and render(x[2][0]) == "p%d" % i_buf for x in (c[2], c[3])) and \
+                any(x[0] == "const" and x[1] == 0 for x in (c[2], c[3])):
+            return l == ("true" if c[1] == "Eq" else "false")
+        return False
+    for s in empties:
+        if s.bb in f.reachable(lib.bbs(ret)):
+            continue        # an empty result built after the removal pass is not a shortcut
+        ctx.guarded("compute", "from_full_sets: shortcut requires count == number of entries", s, count_eq, "new_protocol_count == existing_protocols.len()")
+        ctx.guarded("compute", "from_full_sets: shortcut requires that no new name was recorded", s, none_new, "buffer.is_empty()")
